@@ -640,9 +640,9 @@ const ALPHABET: [char; 22] = [
 /// Extra symbols for the random longer names: lower case, other digits, non-ASCII letters, the
 /// operator characters the design lists as suspects, a closing brace, one emoji (the engine's
 /// own tests use it as a valid sheet name).
-const EXTRA: [char; 22] = [
+const EXTRA: [char; 25] = [
     'a', 'r', 'c', 'e', 'x', 'F', 'S', '9', 'é', 'ß', 'Ω', '日', 'й', '"', '=', '<', '>', '^', '%',
-    '@', '}', '🙈',
+    '@', '}', '🙈', '²', '٢', '½',
 ];
 
 /// Characters the formula lexer accepts inside an unquoted sheet name (its identifier rule:
@@ -953,6 +953,9 @@ fn special_names() -> Vec<String> {
         "A!A1", "A1!A1", "!", "#REF!", "#N/A", "#", "A#", "A B", "A,B", "A;B", "A&B", "A+B", "A-B", "(A)",
         "{A}", "A{", "A}", "Zażółć gęślą jaźń", "日本", "Übersicht", "Ω1", "é", "🙈", "A🙈",
         "AAAAAAAAAABBBBBBBBBBCCCCCCCCCCD", "A1:B2", "A/B", "[A]", "A*", "A?", "A\\B", "",
+        // alphanumeric characters that are neither letters nor ASCII digits (other scripts'
+        // digits, superscripts, fractions, enclosed numbers), leading and inside
+        "²x", "x²", "²", "٢٠٢٤", "x٢", "①st", "x①", "½year", "x½", "_²", "٣_a", "५", "A५",
     ]
     .iter()
     .map(|s| s.to_string())
@@ -1001,7 +1004,7 @@ pub fn run(ctx: &Ctx) {
          non-trivial, distinct by its encoding. Sheet names: every string of length <=3 (quick) / \
          <=4 (thorough) over the 22-symbol alphabet \"ARCET10 '!$-+()._&#,;{\", a list of \
          look-alike names (references, numbers, booleans and function names of every language) and \
-         random names of 1..=31 symbols over that alphabet plus 22 more (lower case, non-ASCII \
+         random names of 1..=31 symbols over that alphabet plus 25 more (lower case, non-ASCII \
          letters, operator characters, an emoji); kept only if add_sheet accepts them; non-trivial \
          if the engine quotes the name or the name looks like a reference, number, boolean, \
          function or column; distinct by name.",
